@@ -1343,7 +1343,7 @@ def create_coalesent(id_, tree_id, taxa, arg):
     if arg.coalescent == "constant":
         if arg.coalescent_integrated is not None:
             # alhpa 3 beta 0.003
-            alpha, beta = arg.coalescent_integrated.split(",")
+            alpha, beta = arg.coalescent_integrated
             coalescent = {
                 "id": id_,
                 "type": "ConstantCoalescentIntegratedModel",
